@@ -8,9 +8,13 @@ agrees with that of `H(λ)` in all coefficients of total order `≤ N`"; the sta
 `C04_rayleigh_schrodinger`: if state `a` is decoupled from every other state (all `(c,a)`, `c ≠ a`, eliminated — a fully
 diagonalised non-degenerate block, or a 1×1 block), then column `a` of `U` is an eigenvector series of `H(λ)` with
 eigenvalue series `H̃_aa` — the defining property of the Rayleigh–Schrödinger series.
+`C04_characteristic_polynomial`: the literal statement — viewing a series of matrices as a matrix of series (`toMatS`, a ring homomorphism), the characteristic
+polynomial of `H̃` equals that of `H(λ)` as polynomials whose coefficients are power series in the parameters: every coefficient agrees at every order
+(`U` is a unit with inverse `U†`, and the characteristic polynomial is invariant under conjugation by a unit).
 Same subject and quantification as C01.
 -/
 import PymaVerif.Proofs.Trace
+import PymaVerif.Proofs.Charpoly
 import PymaVerif.Proofs.Witness
 
 namespace Pyma
@@ -25,6 +29,11 @@ variable {p : Problem K}
 theorem C04_power_traces (h : p.Accepted) (h2 : (2 : K) ≠ 0) (k : ℕ) :
     trS (p.sr "H_tilde" ^ k) = trS (p.sr "H" ^ k) :=
   Problem.C04_traces h h2 k
+
+/-- **C04** the characteristic polynomials of `H̃` and `H(λ)` coincide, coefficient by coefficient and order by order -/
+theorem C04_characteristic_polynomial (h : p.Accepted) (h2 : (2 : K) ≠ 0) :
+    (toMatS (p.sr "H_tilde")).charpoly = (toMatS (p.sr "H")).charpoly :=
+  Problem.C04_charpoly h h2
 
 /-- **C04** truncation at total degree `N` keeps the power traces exact up to degree `N` -/
 theorem C04_truncated (h : p.Accepted) (h2 : (2 : K) ≠ 0) (N k : ℕ) (m : Fin p.nparams →₀ ℕ) (hm : m.degree ≤ N) :
